@@ -229,6 +229,63 @@ where
     }
 }
 
+/// Slices of ZERO-SIZED frames ([f32; 0] is a Frame through the const-generic impl) can be longer
+/// than any slice of real memory: L up to usize::MAX. The chunk schedule and the size hint are
+/// pure index arithmetic and must hold there too (hops of 2^58 and more keep the counts small).
+fn zero_sized_frames(rep: &mut Report) {
+    let top = usize::MAX;
+    let cases: [(usize, usize, usize); 9] = [
+        (top, 2, 1 << 62),
+        ((1 << 63) + 10, 2, 1 << 63),
+        (top, 2, top / 2),
+        (top, 2, top),
+        (top, top, 1),
+        (top - 1, 3, (1 << 61) + 5),
+        ((1 << 63) + 1, 1 << 62, 1 << 62),
+        (top, 2, (1 << 58) + 1),
+        (1 << 40, 2, 1 << 35),
+    ];
+    for (l, b, h) in cases {
+        let case = format!("kind=zst;l={};b={};h={}", l, b, h);
+        let r = vmon::catch(|| -> Result<u64, String> {
+            let frames: Vec<[f32; 0]> = vec![[]; l];
+            let want = if l >= b { (l - b) / h + 1 } else { 0 };
+            let mut wr: Windower<[f32; 0], Rectangle> = Windower::new(&frames[..], b, h);
+            let mut k = 0usize;
+            loop {
+                let (lo, hi) = wr.size_hint();
+                let remaining = want - k;
+                if lo > remaining || hi.map_or(false, |x| x < remaining) {
+                    return Err(format!("before chunk {} size_hint = ({}, {:?}) but {} of {} chunks remain", k, lo, hi, remaining, want));
+                }
+                match wr.next() {
+                    Some(_) => k += 1,
+                    None => break,
+                }
+                if k > want {
+                    return Err(format!("chunk {} yielded, expected {}", k, want));
+                }
+            }
+            if k != want {
+                return Err(format!("{} chunks yielded, expected floor((L-b)/h)+1 = {}", k, want));
+            }
+            Ok(k as u64 + 1)
+        });
+        match r {
+            Ok(Ok(n)) => ev(n),
+            Ok(Err(d)) => {
+                rep.violation("windower|zero_sized_frames|size_hint_or_count", format!("L={} bin={} hop={} over [f32; 0] frames: {}", l, b, h, d), case);
+                return;
+            }
+            Err(m) => {
+                rep.violation("windower|zero_sized_frames|panic", format!("L={} bin={} hop={}: {}", l, b, h, m), case);
+                return;
+            }
+        }
+        rep.hit("windower_over_zero_sized_frames");
+    }
+}
+
 fn windower_all(rep: &mut Report, l: usize, b: usize, h: usize) {
     if let Err(m) = vmon::catch(std::panic::AssertUnwindSafe(|| windower_all_inner(rep, l, b, h))) {
         rep.violation("windower|panic", format!("L={} bin={} hop={}: panicked: {}", l, b, h, m), format!("kind=windower;w=any;fmt=any;ch=0;l={};b={};h={}", l, b, h));
@@ -288,6 +345,10 @@ fn main() {
     rep.oblige("windower_l_equals_bin", 1);
     rep.oblige("windower_l_less_than_bin", 1);
     rep.oblige("windower_hop_ge_remaining", 1);
+    if usize::BITS >= 64 {
+        rep.oblige("windower_over_zero_sized_frames", 9);
+        zero_sized_frames(&mut rep);
+    }
     rep.oblige("iterator_conformance_scripts", 1);
     rep.oblige("windower_state_set_through_public_fields", 1);
 
